@@ -125,8 +125,8 @@ struct C10 : Scenario {
             p["continue_pick"] = static_cast<long long>(rng.chance(0.5) ? rng.range(1, 1000) : 0);      // > 0: a second run continues the base run from one of its report steps
             // simulated wall clock increments per ministep: the >= 15 s throttle of ExtSmryOutput is decided by these
             Json wa = Json::array(); int nw = static_cast<int>(rng.range(1, 6));
-            int style = static_cast<int>(rng.below(4));
-            for (int k = 0; k < nw; ++k) wa.push(style == 0 ? 0.0 : style == 1 ? 20.0 : style == 2 ? (rng.chance(0.5) ? 0.0 : 16.0) : rng.real(0, 30));
+            int style = static_cast<int>(rng.below(5));      // style 4: the wall clock also jumps backwards (NTP step, VM migration)
+            for (int k = 0; k < nw; ++k) wa.push(style == 0 ? 0.0 : style == 1 ? 20.0 : style == 2 ? (rng.chance(0.5) ? 0.0 : 16.0) : style == 3 ? rng.real(0, 30) : rng.real(-3600, 60));
             p["wall_advance"] = wa;
             p["restart_pick"] = static_cast<long long>(rng.below(100)); p["with_restart"] = rng.chance(0.4);
             p["drops"] = Json::object();
@@ -416,7 +416,7 @@ struct C10 : Scenario {
                     if (m.rptonly) ++r.counters["probe.rptonly"]; if (m.sumthin > 0) ++r.counters["probe.sumthin"];
                     sample["ministeps_written"] = static_cast<long long>(rec.rows.size()); sample["ministeps_in_file"] = static_cast<long long>(map.size()); sample["vectors"] = static_cast<long long>(a.keywordList().size());
                     sh.u64(map.size()); sh.u64(a.keywordList().size()); sh.u64(fmt); sh.u64(m.unifout);
-                    for (double wa : cfg.wall_advance) sh.u64(wa >= 15 ? 2 : wa > 0 ? 1 : 0);
+                    for (double wa : cfg.wall_advance) { sh.u64(wa >= 15 ? 2 : wa > 0 ? 1 : wa < 0 ? 3 : 0); if (wa < 0) ++r.counters["fault.clock_jump_backwards"]; }
                     r.nontrivial = map.size() >= 2;
                 } catch (const std::exception& e) { r.fail("C10.reader_threw." + msg_key(e.what()), std::string("a reader threw on files the run produced: ") + e.what()); }
             }
